@@ -70,6 +70,10 @@ def words_for(lang, rng=None, n_compounds=400):
             words.add(w.upper())
             if len(w) > 2:
                 words.add(w[:-1])
+    # words as a caller's tokens might carry them: padded with blanks, with a stray invisible character, with İ for I
+    for w in base[:: max(1, len(base) // 40)]:
+        if w and w.isalpha():
+            words.update([" " + w, w + " ", "\t" + w, w + "\u00a0", "\u200b" + w, w + "\u00ad", w.upper().replace("I", "\u0130")])
     # compounds
     rng = rng or SplitMix64(12345)
     alpha = [w for w in base if w and w.isalpha()] + [w for w in tw if w.isalpha()]
